@@ -275,6 +275,11 @@ def visitInputStatement (vs : List Val) : Except String Val :=
     | _ => .lit (.str (if isLine then "" else "? ")) true
   pure (.stmt (.input (some msg) (toExprs (k 6 :: listOf (k 8)))))
 
+/-- the plain IF form: a condition that is not one of the three boolean classes is compared with 0 -/
+def visitIfStmnt (exp body : Val) : Val :=
+  let c := if isBoolExp exp then toExpr exp else .bin true (toExpr exp) "<>" (.lit (.flt "0.0") false)
+  .stmt (.if_ c (toStmt body) [])
+
 def visitCls (vs : List Val) : Except String Val :=
   pure (.stmt (.cls (if isExpression (kid vs 2) then some (toExpr (kid vs 2)) else Option.none) []))
 
@@ -336,10 +341,7 @@ def visitNamed (env : Env) (name text : String) (vs : List Val) : Except String 
   | "if_else_stmnt" =>
       pure (.stmt (.ifElse (toExpr (k 2)) (toStmt (k 6)) []
         (match k 8 with | .none => Option.none | v => some (toStmt v)) []))
-  | "if_stmnt" =>
-      let exp := k 2
-      let c := if isBoolExp exp then toExpr exp else .bin true (toExpr exp) "<>" (.lit (.flt "0.0") false)
-      pure (.stmt (.if_ c (toStmt (k 6)) []))
+  | "if_stmnt" => pure (visitIfStmnt (k 2) (k 6))
   | "else_if_stmnt" => pure (.stmt (.if_ (toExpr (k 4)) (toStmt (k 8)) []))
   | "if_exp" | "bool_val_exp" | "literal" | "str_simple_exp" | "lhs" | "unop" | "statement" | "last_statement"
   | "statements_else" | "print_arg1" | "print_arg" | "dim_element0" | "dim_var" | "data_element" | "data_num_element0"
